@@ -5,7 +5,8 @@
    one row per group: "at most one row per (rule,key)".  `perm` asks for every sibling order of the chosen rows (%ordered).
    The catalogue is the single source: TLC emits it as JSON and the drivers render the rule text for annet from that.   *)
 EXTENDS Rulebook
-CONSTANT Prefix            \* the vendor's negation word (profile)
+CONSTANTS Prefix,          \* the vendor's negation word (profile)
+          PrefixX          \* a word that merely begins with it (`undox`, `notify`): must not be read as a negation
 
 T(w) == Lit(w)
 ST == [t |-> "star"]
@@ -24,7 +25,8 @@ Catalog == <<
       Plain(<<T("a"), ST>>, << << <<"a","1">> >>, << <<"a","2">> >> >>, <<>>),
       Plain(<<T("b")>>, << << <<"b">>, <<"b","v1">>, <<"b","v2">> >> >>, <<>>),
       Plain(<<T("c"), TT>>, << << <<"c","p">> >>, << <<"c","p","q">> >> >>, <<>>),
-      Plain(<<T("m"), ST, T("k"), ST>>, << << <<"m","1","k","1">> >>, << <<"m","1","k","2">>, <<"m","1","k","2","x">> >> >>, <<>>) >>],
+      Plain(<<T("m"), ST, T("k"), ST>>, << << <<"m","1","k","1">> >>, << <<"m","1","k","2">>, <<"m","1","k","2","x">> >> >>, <<>>),
+      Plain(<<T(PrefixX), ST>>, << << <<PrefixX,"1">> >> >>, <<>>) >>],
   [name |-> "nest", rules |-> <<
       Plain(<<T("a"), ST>>, << << <<"a","1">> >> >>, <<>>),
       Plain(<<T("blk"), ST>>, << << <<"blk","1">> >> >>, <<
@@ -52,7 +54,7 @@ Catalog == <<
   [name |-> "ordered-blocks", rules |-> <<
       Plain(<<T("pm"), ST>>, << << <<"pm","1">> >> >>, <<
           Ord(Plain(<<T("class"), ST>>, << << <<"class","1">> >>, << <<"class","2">> >> >>, <<
-              Plain(<<T("bw"), ST>>, << << <<"bw","1">> >>, << <<"bw","2">> >> >>, <<>>) >>)) >>) >>],
+              Plain(<<T("bw"), ST>>, << << <<"bw","1">>, <<"bw","1","x">> >>, << <<"bw","2">> >> >>, <<>>) >>)) >>) >>],
   [name |-> "rewrite", rules |-> <<
       Plain(<<T("a"), ST>>, << << <<"a","1">> >> >>, <<>>),
       Plain(<<T("rp"), ST>>, << << <<"rp","1">> >> >>, <<
